@@ -491,8 +491,11 @@ func cmdFuzzDec(args []string) {
 				for _, en := range []int{0, 1, 2, 3, 4, 5} {
 					in := append([]byte(nil), pb[:k]...)
 					var mapping []byte
-					if en == 2 || en == 3 {
+					if (en == 2 || en == 3) && k%2 == 0 {
 						in, mapping = guardedMap(pb[:k], true, 32)
+					} else if en == 2 || en == 3 {
+						full := append([]byte(nil), pb...)
+						in = full[:k] // a window into a larger buffer: what lies beyond len() is not input
 					}
 					o := decodeOnce(en, in, k%8)
 					if o.Outcome == "err" && mapping != nil {
